@@ -231,6 +231,7 @@ impl<E: ElemT> TableWorld<E> {
             vio!(self, c, "{det}");
         }
         self.ctx.note_state(&d);
+        self.ctx.group_monitor(&d)?;
         let act = self.actual(si);
         if act.iter().any(|x| !x.1) {
             vio!(self, "ledger/invalid-ref", "the table holds an element that is not live");
@@ -268,6 +269,7 @@ impl<E: ElemT> TableWorld<E> {
             let diff = a.iter().zip(m.iter()).find(|(x, y)| x != y);
             vio!(self, format!("contents/{}", self.ctx.op_kind), "stored elements differ from the model; first difference (actual, model) = {:?}", diff);
         }
+        self.ctx.transcript_add(si, len, a.iter().flat_map(|e| [e.id as u64, e.payload as u64, e.hash]));
         if len as u32 <= self.ctx.cfg.sweep_below {
             self.sweep(si)?;
         }
